@@ -136,6 +136,9 @@ def corpus():
 
 def run(ctx, bt):
     n = ctx.scale(140, 1500)
+    from .. import gen_engine as _G
+    run_engine_protocol(ctx, bt, ctx.scale(25, 300), [Monitor(ctx)], FOOT_FIELDS, None,
+                        spec_mutator=_G.zero_spell_hold, corr_name="step[C01]:hold-through-zero-price-spells")
     run_engine_protocol(ctx, bt, n, [Monitor(ctx)], FOOT_FIELDS, None, corr_name="step[C01]", corpus=corpus())
     from ..runs_run import run_steps_protocol
     run_steps_protocol(ctx, bt, ctx.scale(14, 300), FOOT_FIELDS, "run-steps[C01]")
